@@ -43,8 +43,12 @@ class TokenRevocation(Endpoint):
 
     def get_client_id_from_token(self, endpoint_context, token, request=None):
         _info = endpoint_context.session_manager.get_session_info_by_token(
-            token, handler_key="access_token"
+            token, handler_key="access_token", grant=True
         )
+        # only an access token that was issued, exactly as presented, and is still usable speaks for its client
+        _token = _info["grant"].get_token(token)
+        if _token is None or _token.is_active() is False:
+            raise KeyError("Unknown or inactive token")
         return _info["client_id"]
 
     def process_request(self, request=None, **kwargs):
